@@ -16,7 +16,7 @@ def run(ctx):
     scns = []
     def add(**kw):
         s = {"sc": len(scns), "id": "Chrome-133", "advertised": [1, 2, 3], "alg": 1, "chain": 0, "flush_every": 0, "flush_num": 0, "flush_den": 0,
-             "level": 6, "decl_delta": 0, "decl_huge": False, "corrupt": ""}
+             "level": 6, "decl_delta": 0, "decl_huge": False, "corrupt": "", "drop_ext": False, "zwindow": 0}
         s.update(kw)
         scns.append(s)
     sizes = {1: 0, 2: 20, 3: 70}          # abstract length class -> extra certificates in the chain (~0.5 kB, ~9 kB, ~30 kB)
@@ -46,7 +46,13 @@ def run(ctx):
             add(id=i, alg=alg, decl_huge=True)
             add(id=i, alg=alg, decl_delta=-1, flush_every=100, chain=20)
             add(id=i, alg=alg, decl_delta=1, flush_every=100, chain=20)
+        # zstd frames that declare a large window (a streaming encoder's setting, unrelated to the content size)
+        for zw in (1 << 20, 1 << 23, 1 << 24, 1 << 25, 1 << 27):
+            add(id=i, alg=3, zwindow=zw, flush_every=100, chain=20)
+            add(id=i, alg=3, zwindow=zw)
         add(id=i, alg=4, advertised=[1, 2, 3])           # an algorithm nobody advertised or implements
+        for alg in (1, 2, 3):
+            add(id=i, alg=alg, drop_ext=True)             # extension removed from the hello after it was built (also C12)
         for alg in (1, 2, 3):
             add(id=i, alg=alg, corrupt="trailing")        # a complete stream followed by foreign bytes
             add(id=i, alg=alg, corrupt="trailing", chain=20, flush_every=100)
